@@ -3,6 +3,7 @@
 -/
 import Model.HopLemmas
 import Model.Device
+import Model.Proto.Xreq
 namespace Props.C09
 open Model Model.Hop
 
@@ -265,6 +266,16 @@ theorem star_chain (g : GExpr) (hg : StarDropOK g) (payload : Bytes) :
           simp only [List.getElem_cons_zero, Nat.add_zero] at h0
           exact hc h0
         rw [if_neg hc, if_neg hn]
+
+
+/-- the raw REQ socket a device forwards requests through (XREQ send side, `Model/Proto/Xreq.lean`): in every state the
+    socket can reach — any order of Sends, pipes coming, going, stalling and completing, whichever waiting sender goroutine
+    the runtime lets take each message — the messages taken by pipes so far, then the queue, then the messages of blocked
+    Sends are exactly the messages the socket accepted (or is still asked to accept), in call order: each is handed to one
+    pipe, once, in order; nothing is invented and nothing overtakes -/
+theorem xreq_forwards_each_message_once_in_order (s : Proto.Xreq.State) (hr : Proto.Xreq.Reach s) :
+    Proto.Xreq.line s = s.asked ∧ (s.handed.map (·.2)) <+: s.asked :=
+  ⟨Proto.Xreq.line_is_what_was_asked s hr, Proto.Xreq.taken_is_a_prefix_of_asked s hr⟩
 
 
 /-- forwarding loops die out: each crossing adds one word, so after ttl+1 crossings it is dropped -/
